@@ -5630,12 +5630,16 @@ func (t *Terminal) Loop() error {
 				req(reqInfo)
 			case actShowHeader:
 				t.headerVisible = true
+				// In reverse-list layout the rows of the list move with the header
+				t.forceRerenderList()
 				req(reqList, reqInfo, reqPrompt, reqHeader)
 			case actHideHeader:
 				t.headerVisible = false
+				t.forceRerenderList()
 				req(reqList, reqInfo, reqPrompt, reqHeader)
 			case actToggleHeader:
 				t.headerVisible = !t.headerVisible
+				t.forceRerenderList()
 				req(reqList, reqInfo, reqPrompt, reqHeader)
 			case actToggleWrap:
 				t.wrap = !t.wrap
